@@ -169,14 +169,21 @@ def subsets(names, thorough, rng):
     if not names:
         return []
     full = [frozenset(c) for r in range(1, len(names) + 1) for c in itertools.combinations(names, r)]
-    if thorough or len(full) <= 7:
+    if len(full) <= 7 or (thorough and len(full) <= 255):
         return full
-    # quick: all, every single parameter, every pair (at most 16 of them), a few complements of a single
+    if thorough:  # more than 8 parameters (mixtures): structured subsets + random ones, 200 in all
+        keep = [frozenset(names)] + [frozenset([a]) for a in names] + [frozenset(names) - {a} for a in names]
+        keep += [frozenset(c) for c in itertools.combinations(names, 2)]
+        seen = set(keep)
+        rest = [b for b in full if b not in seen]
+        rng.shuffle(rest)
+        return (keep + rest)[:200]
+    # quick: all, every single parameter, every pair (at most 10 of them), a few complements of a single
     pick = [frozenset(names)] + [frozenset([a]) for a in names]
     pairs = [frozenset(c) for c in itertools.combinations(names, 2)]
-    if len(pairs) > 16:
+    if len(pairs) > 10:
         rng.shuffle(pairs)
-        pairs = sorted(pairs[:16], key=sorted)
+        pairs = sorted(pairs[:10], key=sorted)
     comps = [frozenset(names) - {a} for a in names]
     rng.shuffle(comps)
     for b in pairs + comps[:3]:
@@ -199,9 +206,14 @@ def shapes_for(case, thorough, rng):
         two_pick.add((rng.randint(2, 5), d))
         two_pick.add((d, rng.randint(2, 5)))
     two_pick = sorted(two_pick)
-    if case.slow:
+    joint = getattr(case, "components", None) is not None
+    if case.slow or joint:
         rng.shuffle(two_pick)
-        two_pick = two_pick[:4]
+        two_pick = two_pick[: (3 if joint else 4)]
+    if joint:
+        pick = sorted(pick)
+        rng.shuffle(pick)
+        pick = [(2,)] + [p for p in pick if p != (2,)][:2]
     return sorted(pick) + two_pick
 
 
@@ -277,6 +289,12 @@ def explore_case(ck: Check, case, found, f=None, name=None, budget=None):
     allnames = list(case.params)
     subs = subsets(allnames, ck.thorough(), ck.rng)
     if getattr(case, "spec", None) is not None:
+        if not ck.thorough() and len(case.components) > 1:
+            # mixtures: everything, each component alone entirely, a few single parameters and pairs
+            comp_sets = [frozenset(k for k in allnames if k.startswith(f"{i}.")) for i in range(len(case.components))]
+            rest = [b for b in subs if b not in comp_sets and len(b) < len(allnames)]
+            ck.rng.shuffle(rest)
+            subs = [frozenset(allnames)] + [b for b in comp_sets if b] + rest[:6]
         subs = [frozenset()] + subs  # the joint of unbatched components must be the sum of the components too
     for B in subs:
         if not case.valid(B):
@@ -336,12 +354,12 @@ def joint_cases(ck, cases):
     seen, out = set(), []
     for c in cap:
         b = base_name(c.name)
-        if not ck.thorough() and b in seen and ck.rng.random() < 0.6:
+        if not ck.thorough() and b in seen and ck.rng.random() < 0.8:
             continue
         seen.add(b)
         out.append(CS.joint_case([c]))
     light = [c for c in cap if not c.slow]
-    for _ in range(60 if ck.thorough() else 14):
+    for _ in range(60 if ck.thorough() else 12):
         k = ck.rng.choice((2, 2, 3))
         comps = [ck.rng.choice(cap if ck.rng.random() < 0.15 else light) for _ in range(k)]
         out.append(CS.joint_case(comps))
@@ -363,6 +381,19 @@ def run(ck: Check):
     ]
     ck.trusted += ["torch broadcasting, indexing, cat/expand/view/sum semantics", "torch.distributions densities"]
     ok, broken = ck.lean_side({}, ["TTProofs.Props.C10", "drv_c10"], "TTProofs/Props/C10.lean")
+
+    drv = None
+    try:
+        drv = ck.driver("drv_c10")
+        plan_correspondence(ck, drv)
+        shape_inference_correspondence(ck, drv)
+    except Exception as e:  # the driver may be unbuildable when the Lean side is broken
+        ck.notes.append(f"model correspondence not run: {type(e).__name__}: {e}")
+        if drv is None:
+            ok = False
+    finally:
+        if drv:
+            drv.close()
 
     found = {}
     t_end = ck.t0 + (80 if not ck.thorough() else 800)
@@ -624,3 +655,212 @@ def replay_objective(obj) -> int:
     bad = not any(out.numel() == 1 and close(out, sp) for sp in specs)
     print("verdict:", "VIOLATES" if bad else "ok")
     return 1 if bad else 0
+
+
+# ----------------------------------------------------------------------------- Lean model <-> implementation
+def _shapes(maxlen, dims=(1, 2, 3)):
+    out = [()]
+    for n in range(1, maxlen + 1):
+        out += list(itertools.product(dims, repeat=n))
+    return out
+
+
+def fmt_shape(s):
+    return ",".join(str(d) for d in s) if len(s) else "-"
+
+
+def parse_shape(w):
+    return () if w == "-" else tuple(int(x) for x in w.split(","))
+
+
+def _stub_class():
+    from torchtree.core.model import CallableModel
+
+    class Stub(CallableModel):
+        """a component returning a fixed tensor and reporting a fixed sample shape"""
+
+        def __init__(self, id_, value, claimed):
+            super().__init__(id_)
+            self.value = value
+            self.claimed = torch.Size(claimed)
+
+        def _call(self, *args, **kwargs):
+            return self.value
+
+        def _sample_shape(self):
+            return self.claimed
+
+        def handle_parameter_changed(self, variable, index, event):
+            pass
+
+        def handle_model_changed(self, model, obj, index):
+            pass
+
+        @classmethod
+        def from_json(cls, data, dic):
+            raise NotImplementedError
+
+    return Stub
+
+
+def impl_joint(comps):
+    """comps: [(L, C)] -> ('ok', shape, values) with component c holding 2^(offset_c + flat index), or ('raise', msg)"""
+    from torchtree.distributions.joint_distribution import JointDistributionModel
+
+    Stub = _stub_class()
+    models, off = [], 0
+    for i, (L, C) in enumerate(comps):
+        n = math.prod(L)
+        v = (2.0 ** torch.arange(off, off + n, dtype=torch.float64)).reshape(L)
+        off += n
+        models.append(Stub(f"s{i}", v, C))
+    assert off <= 52
+    try:
+        out = JointDistributionModel("j", models)()
+        return "ok", tuple(out.shape), out.reshape(-1).tolist()
+    except Exception as e:
+        return "raise", f"{type(e).__name__}: {str(e)[:80]}", None
+
+
+def model_joint(drv, comps):
+    rep = drv.ask("joint auto " + " ".join(f"{fmt_shape(L)}/{fmt_shape(C)}" for L, C in comps))
+    if rep.startswith("error:"):
+        return "raise", rep, None
+    if not rep.startswith("shape "):
+        return "bad", rep, None
+    _, sh, _, sup = (rep.split(" ") + [""])[:4]
+    offs, off = [], 0
+    for L, _C in comps:
+        offs.append(off)
+        off += math.prod(L)
+    vals = []
+    for grp in sup.split(";"):
+        v = 0.0
+        for ent in grp.split("+"):
+            if ent:
+                c, f = ent.split(".")
+                v += 2.0 ** (offs[int(c)] + int(f))
+        vals.append(v)
+    return "ok", parse_shape(sh), vals
+
+
+def plan_correspondence(ck: Check, drv):
+    """the REAL JointDistributionModel on stub components with power-of-two entries vs the Lean plan:
+    same error/non-error, same output shape, and bit-identical sums (= the same entries were added)"""
+    rng = ck.rng
+    shapes3 = _shapes(3)
+    refs = [s for s in _shapes(2)]
+    todo = []
+    for L in shapes3:
+        for C in shapes3:
+            todo.append([(L, C)])
+    two = []
+    for L in shapes3:
+        for C in shapes3:
+            for J2 in refs:
+                two.append([(L, C), (J2, J2)])
+                two.append([(J2 + (2,), J2), (L, C)])
+    if not ck.thorough():
+        rng.shuffle(two)
+        two = two[:2500]
+    todo += two
+    # three components: batched with events, batched without, one-element
+    for _ in range(3000 if ck.thorough() else 400):
+        J = rng.choice(refs)
+        comps = []
+        for _k in range(3):
+            r = rng.random()
+            if r < 0.5:
+                E = rng.choice(_shapes(2))
+                comps.append((J + E, J))
+            elif r < 0.7:
+                comps.append(((1,), rng.choice(shapes3)))
+            else:
+                comps.append((rng.choice(shapes3), rng.choice(shapes3)))
+        if sum(math.prod(L) for L, _ in comps) <= 52:
+            todo.append(comps)
+    n_err = n_ok = 0
+    for comps in todo:
+        if sum(math.prod(L) for L, _ in comps) > 52:
+            continue
+        a = impl_joint(comps)
+        b = model_joint(drv, comps)
+        key = ("plan",) + tuple(comps)
+        same = a[0] == b[0] and (a[0] == "raise" or (a[1] == b[1] and a[2] == b[2]))
+        ck.case(key=key, bucket=f"plan/{a[0]}/{len(comps)}comp",
+                sample={"components": [{"lp.shape": list(L), "sample_shape": list(C)} for L, C in comps],
+                        "implementation": a[:2], "model": b[:2]} if a[0] == "ok" and len(comps) == 2 and n_ok % 97 == 0 else None)
+        n_ok += a[0] == "ok"
+        n_err += a[0] == "raise"
+        if not same:
+            ck.mismatch("joint reduction plan differs from the model",
+                        {"components": [[list(L), list(C)] for L, C in comps], "implementation": a, "model": b})
+    ck.extra["plan_correspondence"] = {"triples": len(todo), "ok": n_ok, "raise": n_err}
+    # classification of every single-component triple: the model's finite description of what can mix
+    desc = {}
+    for L in shapes3:
+        for n in range(len(L) + 1):
+            for C in shapes3:
+                rep = drv.ask(f"classify {fmt_shape(L)} {fmt_shape(C)} {fmt_shape(C)} {n}")
+                desc[rep.split()[0]] = desc.get(rep.split()[0], 0) + 1
+    ck.extra["classification_counts_single_component"] = desc
+
+
+def shape_inference_correspondence(ck: Check, drv):
+    from collections import OrderedDict
+
+    from torchtree import Parameter
+    from torchtree.core.container import Container
+    from torchtree.distributions.distributions import Distribution
+    from torchtree.evolution.coalescent import ConstantCoalescentModel, FakeTreeModel
+
+    Stub = _stub_class()
+    rng = ck.rng
+    sh = _shapes(3)
+    nonempty = [s for s in sh if s]
+    # Container._sample_shape
+    for _ in range(600 if ck.thorough() else 150):
+        ps = [rng.choice(nonempty) for _ in range(rng.randint(0, 3))]
+        ms = [rng.choice(sh) for _ in range(rng.randint(0, 3))]
+        objs = [Parameter(f"p{i}", torch.zeros(s)) for i, s in enumerate(ps)] + [
+            Stub(f"m{i}", torch.zeros(()), s) for i, s in enumerate(ms)]
+        try:
+            got = tuple(Container(None, objs).sample_shape)
+        except Exception as e:
+            got = f"raise {type(e).__name__}"
+        rep = drv.ask(f"container {';'.join(map(fmt_shape, ps)) or 'none'} {';'.join(map(fmt_shape, ms)) or 'none'}")
+        ck.case(key=("container", tuple(ps), tuple(ms)), bucket="inference/container")
+        if rep == "bad-op" or got != parse_shape(rep):
+            ck.mismatch("Container._sample_shape differs from the model", {"params": ps, "models": ms, "impl": got, "model": rep})
+    # max(..., key=len) as the coalescent models use it
+    for a in sh:
+        for b in sh:
+            m = ConstantCoalescentModel(None, Parameter("theta", torch.ones(b + (1,))),
+                                        FakeTreeModel(Parameter("h", torch.ones(a + (5,)))))
+            got = tuple(m.sample_shape)
+            rep = drv.ask(f"longest {fmt_shape(a)};{fmt_shape(b)}")
+            ck.case(key=("longest", a, b), bucket="inference/longest")
+            if rep == "bad-op" or got != parse_shape(rep):
+                ck.mismatch("max(key=len) sample shape differs from the model", {"shapes": [a, b], "impl": got, "model": rep})
+    # Distribution._sample_shape: Normal (no event axis) and Dirichlet (one event axis)
+    td = torch.distributions
+    for x in sh:
+        for p in nonempty:
+            for kind in ("Normal", "Dirichlet"):
+                if kind == "Normal":
+                    d = Distribution(None, td.Normal, Parameter("x", torch.zeros(x)),
+                                     OrderedDict(loc=Parameter("loc", torch.zeros(p)), scale=Parameter("scale", torch.ones(1))))
+                    batch, ev = p, 0
+                else:
+                    d = Distribution(None, td.Dirichlet, Parameter("x", torch.zeros(x)),
+                                     OrderedDict(concentration=Parameter("c", torch.ones(p))))
+                    batch, ev = p[:-1], 1
+                try:
+                    got = tuple(d.sample_shape)
+                except Exception as e:
+                    got = f"raise {type(e).__name__}"
+                rep = drv.ask(f"dist {fmt_shape(x)} {fmt_shape(batch)} {ev}")
+                ck.case(key=("dist", kind, x, p), bucket="inference/distribution")
+                if rep == "bad-op" or got != parse_shape(rep):
+                    ck.mismatch("Distribution._sample_shape differs from the model",
+                                {"distribution": kind, "x": x, "parameter": p, "impl": got, "model": rep})
